@@ -25,6 +25,8 @@ RULE = (
     "scenario."
 )
 TYPES = ["Imu", "Mag", "Attitude", "EstimatorStatus"]
+# the sequence number of a generated message travels in a payload field, so that the time stamp is free to repeat
+PAYLOAD = {"Imu": "gyro", "Mag": "mag", "Attitude": "q", "EstimatorStatus": "x"}
 
 
 def mods():
@@ -44,7 +46,8 @@ dy = st.integers(0, 16).map(lambda k: k / 64.0)
 @st.composite
 def scenario(draw):
     nt = draw(st.integers(1, 4))
-    topics = [{"type": draw(st.sampled_from(TYPES)), "subs_early": draw(st.integers(0, 3)), "subs_late": draw(st.integers(0, 2))}
+    topics = [{"type": draw(st.sampled_from(TYPES)), "subs_early": draw(st.integers(0, 3)), "subs_late": draw(st.integers(0, 2)),
+               "subs_before_pub": draw(st.sampled_from([0, 0, 1, 2]))}
               for _ in range(nt)]
     pre = []
     for _ in range(draw(st.integers(0, 6))):
@@ -77,7 +80,7 @@ def scenario(draw):
             src = draw(st.integers(0, nt - 2))
             relays.append({"src": src, "dst": draw(st.integers(src + 1, nt - 1))})
     return {"relays": relays, "topics": topics, "pre": pre, "nodes": nodes, "logger": logger, "logger_dt": ldt, "procs": procs,
-            "updates": updates, "tf": tf}
+            "updates": updates, "tf": tf, "stamp": draw(st.sampled_from(["seq", "clock"]))}
 
 
 def seq_field(tname):
@@ -92,7 +95,7 @@ def run_scenario(sc):
     core = uros.Core()
     nt = len(sc["topics"])
     mtypes = [getattr(msgs, t["type"]) for t in sc["topics"]]
-    pubs = [uros.Publisher(core, "topic%d" % i, mtypes[i]) for i in range(nt)]
+    pay = [PAYLOAD[t["type"]] for t in sc["topics"]]
     received = {}  # sub id -> list of (seq, now)
     subs_of = [[] for _ in range(nt)]  # topic -> list of sub ids (registration order)
     log = {"pubs": [[] for _ in range(nt)], "events": [], "errors": []}
@@ -102,12 +105,18 @@ def run_scenario(sc):
         sid = "t%d_s%d" % (ti, len(subs_of[ti]))
         received[sid] = []
 
-        def cb(msg, sid=sid):
-            received[sid].append((float(msg.data["time"]), float(core.now)))
+        def cb(msg, sid=sid, ti=ti):
+            received[sid].append((float(msg.data[pay[ti]][0]), float(core.now)))
 
         uros.Subscriber(core, "topic%d" % ti, mtypes[ti], cb)
         subs_of[ti].append(sid)
 
+    # construction order: some subscribers exist before the publisher of their topic (a node built before the simulator)
+    pubs = []
+    for ti, t in enumerate(sc["topics"]):
+        for _ in range(t.get("subs_before_pub", 0)):
+            add_sub(ti)
+        pubs.append(uros.Publisher(core, "topic%d" % ti, mtypes[ti]))
     for ti, t in enumerate(sc["topics"]):
         for _ in range(t["subs_early"]):
             add_sub(ti)
@@ -116,7 +125,7 @@ def run_scenario(sc):
 
     def add_relay(src, dst):
         def cb(msg):
-            seq_in = float(msg.data["time"])
+            seq_in = float(msg.data[pay[src]][0])
             n0 = len(log["pubs"][dst])
             do_publish(dst)  # nested publish from inside a callback: checked like any other publish
             relay_log.append((seq_in, log["pubs"][dst][n0][0]))
@@ -148,7 +157,9 @@ def run_scenario(sc):
         counter[0] += 1
         seq = float(counter[0])
         m = msg_obj if msg_obj is not None else mtypes[ti]()
-        m.data["time"] = seq
+        m.data[pay[ti]][0] = seq
+        # time stamp: the sequence number, or the simulation clock (then messages published in the same instant share it)
+        m.data["time"] = seq if sc.get("stamp", "seq") == "seq" else float(core.now)
         expected = list(subs_of[ti])
         log["pubs"][ti].append((seq, float(core.now)))
         n_relayed_before = len(relay_log)
@@ -170,6 +181,7 @@ def run_scenario(sc):
                 raise Violation("subscriber %s received message #%g instead of #%d" % (sid, received[sid][-1][0], int(seq)), scenario=sc)
         if scribble and msg_obj is not None:
             # the publisher goes on filling its (reused) message object for the next publication: nobody may see this value
+            m.data[pay[ti]][0] = -(seq + 0.5)
             m.data["time"] = -(seq + 0.5)
 
     # pre-run phase (before the logger locks the registry)
@@ -310,7 +322,7 @@ def run_scenario(sc):
             if sc["tf"] - times[-1] > last_allowed + 1e-9:
                 raise Violation("logger: no row in the last %g s" % (sc["tf"] - times[-1]), scenario=sc)
         for ti in range(nt):
-            col = arr["topic%d" % ti]["time"]
+            col = arr["topic%d" % ti][pay[ti]][:, 0]
             for ri, t in enumerate(times):
                 seen = log["pubs"][ti][n_before_logger[ti]:]
                 before = [s for s, tp in seen if tp < t]
@@ -337,6 +349,10 @@ def bus_classify(sc):
         out.append("late-subscriber-after-publish")
     if any(pr["wrong_at"] for pr in sc["procs"]) or any(a["op"] == "wrong" for a in sc["pre"]):
         out.append("wrong-type")
+    if sc.get("stamp") == "clock":
+        out.append("clock-stamps")
+    if any(t.get("subs_before_pub") for t in sc["topics"]):
+        out.append("subscriber-before-publisher")
     if any(pr["reuse"] for pr in sc["procs"]):
         out.append("reused-msg")
     if any(pr["reuse"] and pr.get("scribble") for pr in sc["procs"]):
@@ -662,7 +678,7 @@ def build(tier):
             "estimator invariants are stated in message time (stamps); the minimum period in force is the value last broadcast "
             "before the later of two successive corrections",
         ],
-        "require_classes": {"bus/scenario": ["logger", "late-subscriber-after-publish", "wrong-type", "reused-msg", "reused-msg-written-after-publish",
+        "require_classes": {"bus/scenario": ["logger", "late-subscriber-after-publish", "wrong-type", "reused-msg", "reused-msg-written-after-publish", "subscriber-before-publisher",
                                              "logger-period-update", "non-following-node", "relay"],
                             "estimator/scheduling": ["non-positive-dt", "too-early-correction-opportunity", "dt_min-update",
                                                      "accel>mag", "accel<mag"]},
